@@ -181,6 +181,18 @@ def r2_lookup_operands(chk, prog, rule='R2'):
         f = prog.one('celma::prog_args::detail::ArgumentContainer', short)
         key_param = f.params[0]['name']
         loops = [l for l in loops_in(f) if l.get('k') == 'CXXForRangeStmt']
+        if short == 'findExactArg':
+            # the exact lookup answers 'defined / not defined' for every key: it never ends in an exception - in
+            # particular it is not routed through the abbreviation lookup, which throws for an ambiguous abbreviation
+            # although an argument with exactly this key may exist elsewhere (sub-group container, other member)
+            via = [c for c in f.calls() if callee_is(c, 'ArgumentContainer::findArg')]
+            thr = [x for x in f.walk() if x.get('k') == 'CXXThrowExpr']
+            n += 1
+            chk.check(not via and not thr, rule, f.name, 'the exact lookup never throws (it does not go through the '
+                      'abbreviation lookup)', f.loc(via[0]) if via else f.loc(), 'findArg() throws "matches more than one '
+                      'argument" for a key that is an ambiguous abbreviation of other arguments')
+            if via and not loops:
+                continue
         chk.require(loops, '%s: search loop not found' % short)
 
         def refs(o):
